@@ -1383,6 +1383,15 @@ func (vc *VC) havocLoop(st *State, f *Frame, li *loopInfo) {
 					st.heaps[hn] = nh
 				}
 			}
+		case "chclosed":
+			if !mapSeen["chclosed"] {
+				mapSeen["chclosed"] = true
+				old := vc.chanClosed(st)
+				nh := vc.fresh("CHclosed", old.Sort)
+				// channels are only ever closed, never reopened
+				st.assume(T_(sortBool, fmt.Sprintf("(forall ((r Int)) (! (=> (select %s r) (select %s r)) :pattern ((select %s r))))", old.S, nh.S, nh.S)))
+				st.heaps["CHclosed"] = nh
+			}
 		case "bufstr":
 			if !mapSeen["bufstr"] {
 				mapSeen["bufstr"] = true
@@ -1527,6 +1536,27 @@ func (vc *VC) havocLoop(st *State, f *Frame, li *loopInfo) {
 				continue
 			}
 			callee := cc.Common().StaticCallee()
+			if cm := cc.Common(); cm.IsInvoke() {
+				if vc.eng.findIfaceContract(cm) != nil {
+					nm := cm.Method.Name()
+					nc := vc.fresh("call_"+nm+"_n", sortInt)
+					if old, ok := st.ghosts["call_"+nm+"_n"]; ok {
+						st.assume(Bin(sortBool, ">=", nc, old))
+					} else {
+						st.assume(Bin(sortBool, ">=", nc, IntLit(0)))
+					}
+					st.ghosts["call_"+nm+"_n"] = nc
+					ts := []types.Type{cm.Value.Type()}
+					for j := 0; j < cm.Signature().Params().Len(); j++ {
+						ts = append(ts, cm.Signature().Params().At(j).Type())
+					}
+					for j, t := range ts {
+						an := fmt.Sprintf("call_%s_a%d", nm, j)
+						st.ghosts[an] = vc.fresh(an, vc.eng.st.ArrayOf(sortInt, vc.eng.st.SortOf(t)))
+					}
+				}
+				continue
+			}
 			if callee == nil || vc.eng.contractOf(callee) == nil {
 				if key := funcFieldOf(cc.Common().Value); key != "" {
 					if _, has := vc.eng.db.ByField[key]; has {
@@ -1581,6 +1611,9 @@ func (vc *VC) frameOld(st *State, nh, old, allocAtEntry *Term) {
 }
 
 func (vc *VC) havocAll(st *State) {
+	vc.nfresh++
+	st.epoch = itoa(vc.nfresh)
+	st.epochAlloc = st.alloc
 	for name, h := range st.heaps {
 		if strings.HasPrefix(name, "B_") {
 			continue // boxes are immutable
